@@ -183,8 +183,25 @@ def candidate_near(rng, v):
     c = {"epoch": v["epoch"], "release": list(v["release"]), "pre": v["pre"], "post": v["post"], "dev": v["dev"],
          "local": (list(v["local"]) if v["local"] is not None else None)}
     r = c["release"]
-    k = rng.randrange(13)
-    if k == 1:
+    k = rng.randrange(15)
+    if k in (13, 14):
+        # textual neighbours: a release that is V's as *text* with a digit appended to / removed from one component
+        # (1.1 / 1.10 / 1.100, 1.20 / 1.2, 12 / 1): string functions (rstrip, startswith, slicing) relate these, numbers do not
+        i = rng.choice([len(r) - 1, len(r) - 1, rng.randrange(len(r))])
+        t = str(r[i])
+        how = rng.randrange(4)
+        if how == 0:
+            t = t + "0" * rng.choice([1, 1, 2])
+        elif how == 1 and len(t) > 1:
+            t = t[:-1]
+        elif how == 2:
+            t = t + rng.choice("123456789")
+        else:
+            t = t.rstrip("0") or "0"
+        c["release"] = r[:i] + [int(t)] + r[i + 1:]
+        if rng.random() < 0.5:
+            c["release"] = (GV._strip0(c["release"]) or [0]) + [0] * rng.choice([0, 0, 1])
+    elif k == 1:
         c["release"] = r + [0] * rng.choice([1, 1, 2])
     elif k == 2:
         c["release"] = GV._strip0(r) or [0]
